@@ -4,6 +4,8 @@ import (
 	"fmt"
 	"math"
 	"math/big"
+	"os"
+	"path/filepath"
 	"strconv"
 	"strings"
 	"unicode/utf8"
@@ -396,6 +398,45 @@ func c12literal(c *engine.Ctx, env *zygo.Zlisp, l c12lit) {
 	c.Outcome("L|" + cls + "|" + l.text)
 }
 
+// c12files: data saved as text can be sourced again — also when the file already held something longer
+func c12files(c *engine.Ctx, env *zygo.Zlisp, only string) {
+	hs := c12hashes(env)
+	path := filepath.Join(os.TempDir(), fmt.Sprintf("c12-%d.zy", os.Getpid()))
+	defer os.Remove(path)
+	for i, big := range hs {
+		for j, small := range hs {
+			w := fmt.Sprintf("F|%d|%d", i, j)
+			if !(only == "" && c.Mine() || only == w) {
+				continue
+			}
+			if _, isHash := small.(*zygo.SexpHash); !isHash {
+				continue // owritef writes the elements of an array one per line: only a hash is one datum in the file
+			}
+			if _, isHash := big.(*zygo.SexpHash); !isHash {
+				continue
+			}
+			c.Begin(w)
+			os.Remove(path)
+			env.AddGlobal("fbig", big)
+			env.AddGlobal("fsmall", small)
+			env.AddGlobal("fpath", &zygo.SexpStr{S: path})
+			zy.Eval(env, `(owritef fbig fpath)`)
+			zy.Eval(env, `(owritef fsmall fpath)`)
+			r := zy.Eval(env, `(source fpath)`)
+			viol := func(clause, detail string) { c.Violation(clause, "C12/"+clause+"/file", w, detail) }
+			switch {
+			case r.Panic != "":
+				viol("print-panic", r.Panic)
+			case !r.OK():
+				viol("source-fails", fmt.Sprintf("after (owritef %s f) then (owritef %s f), (source f) fails: %s", clipS(big.SexpString(nil), 80), clipS(small.SexpString(nil), 80), r))
+			case !equalData(small, r.Sexp):
+				viol("source-differs", fmt.Sprintf("(owritef %s f) then (source f) gives %s", clipS(small.SexpString(nil), 80), clipS(r.Val, 80)))
+			}
+			c.Outcome(w)
+		}
+	}
+}
+
 func c12run(c *engine.Ctx, only string) {
 	thorough := c.Thorough()
 	env := zy.New(true)
@@ -474,6 +515,18 @@ func c12run(c *engine.Ctx, only string) {
 	for _, s := range c12symbols() {
 		every(env.MakeSymbol(s), "symbol", false, "sym:"+s)
 	}
+	// a sign symbol directly followed by a number inside a list or array
+	for _, sign := range []string{"-", "+"} {
+		for _, num := range []string{"(* 2.0 1e308)", "(* -2.0 1e308)", "1", "-1", "2.5", "-2.5", "1e21", "0"} {
+			for _, shape := range []string{"(list (quote %s) %s)", "[(quote %s) %s]", "(list 1 (quote %s) %s 2)"} {
+				src := fmt.Sprintf(shape, sign, num)
+				if r := zy.Eval(env, src); r.OK() && c.Mine() {
+					c12roundtrip(c, env, r.Sexp, "sign-then-number", false, "calc:"+src, 0)
+				}
+			}
+		}
+	}
+	c12files(c, env, "")
 	hashes := c12hashes(env)
 	for hi, h := range hashes {
 		if c.Mine() {
@@ -495,13 +548,21 @@ func init() {
 		ID:    "C12",
 		Level: "exploration",
 		Rule: "values: 18 boundary ints, ~1300 floats (grid, every 7th power of two over the whole exponent range with neighbours [thorough: all 2098], values computed by the interpreter's own arithmetic), bools, nil, chars and 1-char strings over U+0000..U+20FF + every 257th scalar above + representatives [thorough: all 1,112,064 Unicode scalars], " +
-			"all 2-char strings over a 21-char adversarial pool [thorough: 3-char], strings computed by concat from raw (backtick) and quoted literals, one object shared twice inside a value (7 objects x 6 shapes), 22 symbols, 11 JSON-like hashes; each bare, in a list, in an array and nested to depth 3; (read (str v)) must equal v structurally (numbers by value) and for JSON-like values (eval (read (str v))) too. " +
+			"all 2-char strings over a 21-char adversarial pool [thorough: 3-char], strings computed by concat from raw (backtick) and quoted literals, one object shared twice inside a value (7 objects x 6 shapes), 22 symbols, a sign symbol followed by a number in lists/arrays, 11 JSON-like hashes (also written with owritef over a longer file and sourced again); each bare, in a list, in an array and nested to depth 3; (read (str v)) must equal v structurally (numbers by value) and for JSON-like values (eval (read (str v))) too. " +
 			"literals: ~700 numeric spellings (decimal with _, 0x 0o 0b, ULL, fraction, exponent, sign, Inf, NaN) against strconv/math/big, and char/string literals for every rune of the set and every escape; each with and without a terminating blank",
 		Assumptions: []string{"equality is structural with numbers compared by value (an integral float may read back as an integer)", "the printed form of +-Inf is only required to read back, not to evaluate"},
 		Run:         func(c *engine.Ctx) { c12run(c, "") },
 		Replay: func(c *engine.Ctx, w string) {
 			env := zy.New(true)
 			defer env.Close()
+			if strings.HasPrefix(w, "F|") {
+				c.NWorkers = 1
+				c12files(c, env, w)
+				for i := range c.Viol {
+					c.Viol[i].Key = "*"
+				}
+				return
+			}
 			if strings.HasPrefix(w, "L|") {
 				text := w[2:]
 				for _, thorough := range []bool{false, true} {
